@@ -395,8 +395,11 @@ def check_tobytes(ctx, repo, fr, tob, CM):
         K, V = '%s[0]' % item, '%s[1]' % item
     elif it in ('sorted(%s)' % CM, 'sorted(%s.keys())' % CM):
         K, V = item, '%s[%s]' % (CM, item)
+    elif it in ('%s.items()' % CM, CM, '%s.keys()' % CM, '%s.values()' % CM) or it.startswith(('reversed(sorted(%s' % CM, 'sorted(%s.items(), reverse' % CM, 'sorted(%s, reverse' % CM)):
+        ctx.violation(rule, producer, 'for ... in %s' % it, 'chunks are not walked in position order (sorted items / keys of the chunk map)', lp.lineno, clause='5', witness=True)
+        return
     else:
-        ctx.violation(rule, producer, 'for ... in %s' % it, 'chunks are not walked in position order (sorted items / keys of the chunk map)', lp.lineno, clause='5')
+        ctx.undecided(rule, producer, 'for ... in %s' % it, 'cannot see that the chunks are walked in position order (not sorted items / keys of the chunk map)', lp.lineno, clause='5')
         return
     ctx.holds(rule, producer, 'for ... in %s' % it, 'chunks walked in position order', lp.lineno, clause='5')
     body = lp.sub['body']
@@ -426,10 +429,12 @@ def check_tobytes(ctx, repo, fr, tob, CM):
                 class _E:            # line numbers for the reports
                     lineno = lp.lineno
                 emits = [_E, _E]
+    # the chunk of an item of the sorted items is also CM[its position]
+    V_ALT = ('%s[%s]' % (CM, K)) if it == 'sorted(%s.items())' % CM else None
     begin_var = None
     for c in lp.sub['carried']:
         v = b.env.get(c)
-        if v is not None and lin(v) == {K: 1, 'len(%s)' % V: 1}:
+        if v is not None and lin(v) in ({K: 1, 'len(%s)' % V: 1}, {K: 1, 'len(%s)' % V_ALT: 1}):
             begin_var = c
     desc = '; '.join(e.text() if e.kind != 'yield' else 'yield %s' % canon(e.value) for e in b.effects) or '; '.join(canon(x) for x in parts_)
     if begin_var is None:
@@ -442,13 +447,22 @@ def check_tobytes(ctx, repo, fr, tob, CM):
         return
     gap, chunk = parts_
     good_gap = False
+    # the hole rendered by a one-expression method of the buffer: read its expression
+    if isinstance(gap, ast.Call) and isinstance(gap.func, ast.Attribute) and canon(gap.func.value) == 'self' and len(gap.args) == 1 and not gap.keywords:
+        hm = repo.method(fr, gap.func.attr)
+        if hm is not None:
+            body_ = [x for x in hm.node.body if not (isinstance(x, ast.Expr) and isinstance(x.value, ast.Constant))]
+            ps_ = [a_.arg for a_ in hm.node.args.args]
+            if len(body_) == 1 and isinstance(body_[0], ast.Return) and body_[0].value is not None and len(ps_) == 2:
+                from ..expr import subst
+                gap = subst(body_[0].value, {ps_[1]: gap.args[0]})
     if isinstance(gap, ast.BinOp) and isinstance(gap.op, ast.Mult):
         for f, m in ((gap.left, gap.right), (gap.right, gap.left)):
             if canon(f) == 'self.fill' and lin(m) == {K: 1, B: -1}:
                 good_gap = True
     if not good_gap:
         ok = ctx.violation(rule, producer, 'hole: %s' % canon(gap), 'the hole before a chunk is not rendered as fill * (offset - begin)', emits[0].lineno, clause='5')
-    if canon(chunk) != V:
+    if canon(chunk) not in (V, V_ALT):
         ok = ctx.violation(rule, producer, 'chunk: %s' % canon(chunk), 'the part emitted after the hole is not the stored chunk', emits[1].lineno, clause='5')
     # initial value of begin
     init_v = None
